@@ -1068,3 +1068,51 @@ Example page_might_match_f16 :
   page_might_match TInt32 (add_page [] 0 (Some (i32 1%N)) (Some (i32 1000%N)) false) 0 (Some (i32 0%N)) (Some (i32 256%N))
   = SOk (E_CARQUET_OK, true).
 Proof. vm_compute. reflexivity. Qed.
+
+(** ------------------------------------------------------------------------------------------------
+    Part 8 (optional link): the sign-magnitude key order against Flocq's IEEE-754 comparison, on a finite
+    sample of bit patterns (zeros, subnormals, ones +- 1 ulp, extremes, infinities, NaNs of both signs).
+    This is a sample, not a proof for all patterns; Flocq's [b32_of_bits] / [Bcompare] depend on the axioms of
+    Coq's real numbers, which Print Assumptions lists for this statement only. *)
+From Flocq Require IEEE754.Binary IEEE754.Bits.
+
+Definition flocq_cmp32 (a b : N) : option comparison :=
+  IEEE754.Binary.Bcompare 24 128 (IEEE754.Bits.b32_of_bits (Z.of_N a)) (IEEE754.Bits.b32_of_bits (Z.of_N b)).
+Definition flocq_cmp64 (a b : N) : option comparison :=
+  IEEE754.Binary.Bcompare 53 1024 (IEEE754.Bits.b64_of_bits (Z.of_N a)) (IEEE754.Bits.b64_of_bits (Z.of_N b)).
+
+Definition key_cmp (nan : N -> bool) (key : N -> Z) (a b : N) : option comparison :=
+  if nan a || nan b then None else Some (Z.compare (key a) (key b)).
+
+Definition ocmp_eqb (x y : option comparison) : bool :=
+  match x, y with
+  | None, None => true
+  | Some Lt, Some Lt | Some Eq, Some Eq | Some Gt, Some Gt => true
+  | _, _ => false
+  end.
+
+Definition samples32 : list N :=
+  [0x00000000; 0x80000000; 0x00000001; 0x80000001; 0x007FFFFF; 0x00800000; 0x807FFFFF; 0x80800000; 0x3F800000; 0x3F7FFFFF;
+   0x3F800001; 0xBF800000; 0xBF7FFFFF; 0xBF800001; 0x7F7FFFFF; 0xFF7FFFFF; 0x7F800000; 0xFF800000; 0x40A00000; 0x41200000;
+   0x7FC00000; 0x7F800001; 0xFFC00000; 0x7FFFFFFF; 0xFF800001; 0x12345678; 0x92345678; 0x7F000000; 0x00400000; 0xC0A00000]%N.
+
+Definition samples64 : list N :=
+  [0x0000000000000000; 0x8000000000000000; 0x0000000000000001; 0x8000000000000001; 0x000FFFFFFFFFFFFF; 0x0010000000000000;
+   0x800FFFFFFFFFFFFF; 0x8010000000000000; 0x3FF0000000000000; 0x3FEFFFFFFFFFFFFF; 0x3FF0000000000001; 0xBFF0000000000000;
+   0xBFEFFFFFFFFFFFFF; 0xBFF0000000000001; 0x7FEFFFFFFFFFFFFF; 0xFFEFFFFFFFFFFFFF; 0x7FF0000000000000; 0xFFF0000000000000;
+   0x4014000000000000; 0x4024000000000000; 0x7FF8000000000000; 0x7FF0000000000001; 0xFFF8000000000000; 0x7FFFFFFFFFFFFFFF;
+   0xFFF0000000000001; 0x123456789ABCDEF0; 0x923456789ABCDEF0; 0x7FE0000000000000; 0x0008000000000000; 0xC014000000000000]%N.
+
+Definition agree_on (f g : N -> N -> option comparison) (l : list N) : bool :=
+  forallb (fun a => forallb (fun b => ocmp_eqb (f a b) (g a b)) l) l.
+
+Theorem float_key_matches_flocq_sample_thm :
+  agree_on flocq_cmp32 (key_cmp is_nan32 fkey32) samples32 = true /\
+  agree_on flocq_cmp64 (key_cmp is_nan64 fkey64) samples64 = true.
+Proof. split; vm_compute; reflexivity. Qed.
+
+(* Print Assumptions float_key_matches_flocq_sample_thm lists exactly:
+     ClassicalDedekindReals.sig_not_dec, ClassicalDedekindReals.sig_forall_dec,
+     FunctionalExtensionality.functional_extensionality_dep, Classical_Prop.classic
+   (Flocq's binary floats are defined over Coq's reals).  The statement is kept out of Props/Properties_C16.v
+   so that every property theorem stays closed under the global context. *)
